@@ -187,7 +187,13 @@ func (ssc *StorageSmartContract) readPoolLockInternal(txn *transaction.Transacti
 			IsMint: transfer.isMint,
 		})
 
-	} // when mint is true, we don't need to do anything but add tokens to the pool, the tokens will be transfered from SC to client when collecting rewards
+	} else {
+		// the read pool share of a free storage grant is paid by the wallet the grant names
+		// (the contract owner), like its write pool share
+		if _, err := transfer.transfer(balances); err != nil {
+			return "", common.NewError("read_pool_lock_failed", err.Error())
+		}
+	}
 
 	var newReadPool = false
 	rp, err := ssc.getReadPool(targetId, balances)
